@@ -21,7 +21,7 @@ def visit(p, path):
             'digestScript': s.getDigestScript(), 'script': s.getScript(),
             'args': [a.getVariantId().hex() for a in s.getArguments() if a.isValid()],
             'tools': [[n, t.getStep().getVariantId().hex(), t.getPath(), list(t.getLibs())] for n, t in sorted(s.getTools().items())],
-            'sandbox': s.getSandbox() is not None}
+            'sandbox': s.getSandbox() is not None, 'weakTools': sorted(cs.toolDepWeak)}
     rec['deps'] = []
     for d in p.getDirectDepSteps():
         dp = d.getPackage(); rec['deps'].append(dp.getName()); visit(dp, path + [dp.getName()])
@@ -43,7 +43,7 @@ LISTS = ['checkoutVars', 'checkoutVarsWeak', 'buildVars', 'buildVarsWeak', 'pack
 
 def gen(rnd):
     """recipes r0 (root) .. rn, optional class, optional tool provider, optional git checkout; every recipe sets VA..VE"""
-    n = rnd.randint(2, 4); R = {}; files = {}
+    n = rnd.randint(2, 4); R = {}; files = {}; inc_user = None
     for i in range(n):
         name = 'r%d' % i; r = {}
         if i == 0: r['root'] = True
@@ -65,11 +65,17 @@ def gen(rnd):
         files['classes/c0.yaml'] = 'buildScript: |\n  echo from-class-c0\npackageScript: |\n  echo pkg-from-class\n'
         for nm in rnd.sample(sorted(R), rnd.randint(1, len(R))): R[nm]['inherit'] = ['c0']
     if rnd.random() < .6:
+        # included files: all three include modes; the content of an included file is part of what the step executes
+        nm = rnd.choice(sorted(R))
+        files['recipes/inc_lit.txt'] = 'literal-1'; files['recipes/inc_file.txt'] = 'file-1\n'; files['recipes/inc_glob_a.txt'] = 'glob-a-1\n'
+        R[nm]['buildScript'] += "L=$<'inc_lit.txt'>\ncat $<<inc_file.txt>> > /dev/null\nfor i in $<@inc_glob_*.txt@> ; do cat $i > /dev/null ; done\n"
+        inc_user = nm
+    if rnd.random() < .6:
         R['tool'] = {'buildScript': 'echo tool\n', 'packageScript': 'mkdir -p bin lib lib64; echo tool\n', 'provideTools': {'gen': {'path': 'bin', 'libs': ['lib', 'lib64']}}}
         for nm in rnd.sample([x for x in sorted(R) if x != 'tool'], rnd.randint(1, 2)):
             R[nm].setdefault('depends', []).append({'name': 'tool', 'use': ['tools']})
-            R[nm][rnd.choice(['buildTools', 'packageTools', 'buildToolsWeak'])] = ['gen']
-    return {'recipes': R, 'config': {}, 'files': files}
+            R[nm][rnd.choice(['buildTools', 'packageTools', 'buildToolsWeak', 'checkoutToolsWeak', 'packageToolsWeak'])] = ['gen']
+    return {'recipes': R, 'config': {}, 'files': files, 'include_user': inc_user}
 
 def expected_vars(recipe):
     """documented carry-forward: a variable consumed by a step is also set in the following steps"""
@@ -78,6 +84,24 @@ def expected_vars(recipe):
     strong['build'] = strong['src'] | g('buildVars'); weak['build'] = weak['src'] | g('buildVarsWeak')
     strong['dist'] = strong['build'] | g('packageVars'); weak['dist'] = weak['build'] | g('packageVarsWeak')
     return strong, weak
+
+def check_weak_tools(model, q, log):
+    """a tool is weak in a step (only its name enters the Build-Id) exactly if it is declared weak in that step or an earlier
+    one of the package and not declared strong in any of them"""
+    for key, rec in q.items():
+        r = model['recipes'].get(rec['recipe'])
+        if r is None or not rec['recipe'].startswith('r'): continue
+        strong = set(); weak = set()
+        for label, sk, wk in (('src', 'checkoutTools', 'checkoutToolsWeak'), ('build', 'buildTools', 'buildToolsWeak'), ('dist', 'packageTools', 'packageToolsWeak')):
+            strong |= set(r.get(sk, [])); weak |= set(r.get(wk, []))
+            s = rec['steps'].get(label)
+            if s is None: continue
+            avail = {t[0] for t in s['tools']}
+            want = sorted((weak - strong) & avail)
+            if sorted(set(s['weakTools']) & avail) != want:
+                return {'kind': 'weakly-used-tools-of-a-step-are-not-the-declared-ones', 'package': key, 'step': label, 'weak_in_build_id': s['weakTools'], 'declared_weak_not_strong': want,
+                        'what': 'a weakly used tool that is treated as strong makes the Build-Id depend on the installed tool variant', 'history': log}
+    return None
 
 # single edits: (description, function(model, rnd) -> recipe name whose ids must change or None if not applicable, relevant labels)
 def edits():
@@ -135,6 +159,12 @@ def edits():
         if n is None: return None, []
         ds = m['recipes'][n]['depends']; i = [k for k, d in enumerate(ds) if isinstance(d, str)][:2]
         ds[i[0]], ds[i[1]] = ds[i[1]], ds[i[0]]; return n, ['build', 'dist']      # argument ORDER is part of the id
+    def e_include(fn, what):
+        def f(m, rnd):
+            if fn not in m['files']: return None, []
+            m['files'][fn] = m['files'][fn].replace('-1', '-2')
+            n = m.get('include_user'); return n, ['build', 'dist']
+        return f
     def e_git(attr, val):
         def f(m, rnd):
             n = pick(m, rnd, lambda r: r.get('checkoutSCM', {}).get('scm') == 'git')
@@ -149,6 +179,8 @@ def edits():
     return [('build script', e_script), ('package script', e_pkg_script), ('checkout script', e_checkout_script), ('class script', e_class_script),
             ('buildSetup added', e_setup), ('value of a checkoutVars variable', e_var_value('src')), ('value of a buildVars variable', e_var_value('build')),
             ('value of a packageVars variable', e_var_value('dist')), ('variable added to buildVars', e_var_list), ('tool path', e_tool_path), ('tool libs', e_tool_libs), ('tool libs order', e_tool_libs_order),
+            ("content of a file included with $<'file'>", e_include('recipes/inc_lit.txt', 'lit')), ('content of a file included with $<<file>>', e_include('recipes/inc_file.txt', 'file')),
+            ('content of a file included with $<@glob@>', e_include('recipes/inc_glob_a.txt', 'glob')),
             ('order of two dependencies', e_dep), ('git branch', e_git('branch', 'other')), ('git tag', e_git('tag', 'v1')), ('git dir', e_git('dir', 'elsewhere')),
             ('git submodules', e_git('submodules', True)), ('git url', e_git('url', 'https://example.invalid/moved.git'))]
 
